@@ -11,6 +11,7 @@ import Driver.ST
 import Driver.Store
 import Driver.Codec
 import Driver.Cli
+import Driver.Graph
 
 open Drv
 
@@ -20,20 +21,29 @@ def step (line : String) : String :=
   | some out => out
   | none => "bad-op"
 
-partial def loop (hin : IO.FS.Stream) (hout : IO.FS.Stream) (st : Moc.Store.St) : IO Unit := do
+structure DState where
+  store : Moc.Store.St
+  adj : AdjTable
+
+partial def loop (hin : IO.FS.Stream) (hout : IO.FS.Stream) (st : DState) : IO Unit := do
   let line ← hin.getLine
   if line.isEmpty then return ()
   let toks := (line.trimAscii.toString.splitOn " ").filter (· ≠ "")
-  match stepStore st toks with
-  | some (st', out) =>
+  match stepStore st.store toks with
+  | some (s', out) =>
     hout.putStrLn out
-    loop hin hout st'
+    loop hin hout { st with store := s' }
   | none =>
-    hout.putStrLn (step line)
-    loop hin hout st
+    match stepGraph st.adj toks with
+    | some (a', out) =>
+      hout.putStrLn out
+      loop hin hout { st with adj := a' }
+    | none =>
+      hout.putStrLn (step line)
+      loop hin hout st
 
 def main : IO Unit := do
   let hin ← IO.getStdin
   let hout ← IO.getStdout
-  loop hin hout Moc.Store.St.init
+  loop hin hout { store := Moc.Store.St.init, adj := [] }
   hout.flush
